@@ -64,6 +64,17 @@ Theorem C14_fast_equals_legacy : forall (S : Type) (seqb : S -> S -> bool) (slen
 Proof. exact mfm_fast_legacy. Qed.
 Print Assumptions C14_fast_equals_legacy.
 
+(* lists of hive/drill sub-datasets (first element a multi-file dataset) never take the fast path: the result does not
+   depend on whether an fsspec filesystem is given, and C14_concat describes it *)
+Theorem C14_subdatasets_always_legacy : forall (S : Type) (seqb : S -> S -> bool) (slen : S -> nat) (X : Type)
+    (file_list : list str) (pf0 : pfile S X) (rest : list (pfile S X)) verify fs root,
+  pf_simple S X pf0 = false ->
+  is_legacy S X verify fs (pf0 :: rest) = true /\
+  metadata_from_many S seqb slen X file_list (pf0 :: rest) verify fs root
+  = metadata_from_many S seqb slen X file_list (pf0 :: rest) verify false root.
+Proof. exact subdatasets_always_legacy. Qed.
+Print Assumptions C14_subdatasets_always_legacy.
+
 (* the slicing of the fast path, f[len(basepath):].lstrip("/"), is the relative path *)
 Theorem C14_fast_slice : forall (base rest : list str),
   rest <> [] -> Forall (fun s => s <> [] /\ ~ In c_slash s) rest ->
